@@ -62,11 +62,11 @@ Proof. exact unsupported_iff. Qed.
 Print Assumptions C20_unsupported_iff_outside_set.
 
 (* the same through px.NewFormatContext3(value, directive) + ToString, for every directive string of
-   the grammar (parse_format succeeds).  Float NaN is excluded: its inferred type Float[NaN, NaN]
-   does not accept itself, so the directive is not the format that GetFormat selects (design notes) *)
+   the grammar (parse_format succeeds).  Float NaN is included (fixed finding nan-directive-ignored): its
+   inferred type is the unbounded Float type, which accepts itself, so GetFormat selects the directive *)
 Theorem C20_unsupported_iff_directive :
   forall (o : oracle) (v : value) (s : str) (f : format) (c : N) (k : kind),
-    is_container v = false -> is_nan_value v = false -> parse_format s None None CfNone = ROk f ->
+    is_container v = false -> parse_format s None None CfNone = ROk f ->
     (format_value o v (FStr s) = Some (OErr (EUnsupported c k))
      <-> (supported (kind_of v) (f_char f) = false /\ c = f_char f /\ k = kind_of v)).
 Proof. exact unsupported_iff_directive. Qed.
@@ -181,34 +181,25 @@ Print Assumptions C20_width_respected_partial.
 (* partial: the renderings under e E f g G a A are excluded (digit strings are an oracle); their
    sign / zero padding / width shape is tied by the correspondence and the direct check only *)
 
-(* the same through NewFormatContext3(value, directive string).  Guarded: Float NaN is excluded, see
-   the open finding below; the unguarded statement is C20_statement_width_directive *)
+(* the same through NewFormatContext3(value, directive string), Float NaN included; partial for the same reason
+   (float_path) *)
 Theorem C20_width_respected_directive_partial :
   forall (o : oracle) (v : value) (s : str) (f : format) (t : str),
-    is_container v = false -> is_nan_value v = false -> float_path v (f_char f) = false ->
+    is_container v = false -> float_path v (f_char f) = false ->
     parse_format s None None CfNone = ROk f ->
     format_value o v (FStr s) = Some (OText t) -> f_width f <= rlen t.
 Proof. exact width_respected_directive. Qed.
 Print Assumptions C20_width_respected_directive_partial.
 
-Definition C20_statement_width_directive : Prop :=
-  forall (o : oracle) (v : value) (s : str) (f : format) (t : str),
-    is_container v = false -> float_path v (f_char f) = false ->
-    parse_format s None None CfNone = ROk f ->
-    format_value o v (FStr s) = Some (OText t) -> f_width f <= rlen t.
-
-(* open finding nan-directive-ignored: '%10d' of NaN renders "NaN" (the model follows the code:
-   Float[NaN, NaN] does not accept itself, GetFormat falls back to %s) *)
-Theorem C20_nan_directive_ignored_refuted : ~ C20_statement_width_directive.
-Proof.
-  intros H.
-  specialize (H (mkOracle [] [] [] [((9221120237041090561, 103%N, -1), lit "NaN")] [] [] [])
-                (VFloat 9221120237041090561) (lit "%10d")
-                (mkFormat false false false 100 0 (-1) 10 0 None None CfNone) (lit "NaN")
-                eq_refl eq_refl eq_refl eq_refl).
-  vm_compute in H. apply H. reflexivity.
-Qed.
-Print Assumptions C20_nan_directive_ignored_refuted.
+(* fixed finding nan-directive-ignored: the directive given for NaN is applied ('%10s' of NaN is 10 wide, '%6g'
+   6 wide; it was "NaN", 3 wide, whatever the directive: Float[NaN, NaN] did not accept itself and GetFormat fell
+   back to %s) *)
+Example C20_nan_directive_applied :
+  let o := mkOracle [] [] [] [((9221120237041090561, 103%N, -1), lit "NaN")] [] [] [] in
+  format_value o (VFloat 9221120237041090561) (FStr (lit "%10s")) = Some (OText (lit "       NaN"))
+  /\ format_value o (VFloat 9221120237041090561) (FStr (lit "%6g")) = Some (OText (lit "   NaN"))
+  /\ format_value o (VFloat 9221120237041090561) (FStr (lit "%q")) = Some (OErr (EUnsupported 113 KdFloat)).
+Proof. vm_compute. repeat split. Qed.
 
 (* ApplyStringFlags (every value kind's %s %p %c %t ... family): the text under width w is the text
    without width padded with spaces to w runes, on the right under '-', on the left otherwise *)
